@@ -1,6 +1,7 @@
 package main
 
 import (
+	"strings"
 	"go/token"
 	"go/types"
 
@@ -275,4 +276,56 @@ func srcOnlyVia(fn *ssa.Function, s Src, p func(Fact) bool) bool {
 		}
 	}
 	return found
+}
+
+// mayBeNilAt: the (error) value v can be nil where it is used in block at: one of its sources is the
+// nil constant, or a value of unknown nil-ness (a call result, a parameter, a load) that does not
+// enter exclusively through an edge on which it was found non-nil. `err = f(); if err != nil { err =
+// wrap(err) }; return x, err` returns f's result through the == nil edge: that is a nil.
+func mayBeNilAt(w *World, fn *ssa.Function, v ssa.Value, at *ssa.BasicBlock) bool {
+	return len(nilSources(w, fn, v, at)) > 0
+}
+
+// nilSources: the sources of v (see Sources) through which v can be nil at block at.
+func nilSources(w *World, fn *ssa.Function, v ssa.Value, at *ssa.BasicBlock) []Src {
+	var out []Src
+	for _, s := range w.Sources(v, at) {
+		switch s.Kind {
+		case "nil":
+			out = append(out, s)
+			continue
+		case "nonnil":
+			continue
+		}
+		sv := s.V
+		if srcOnlyVia(fn, s, func(f Fact) bool { return f.Kind == FNonNil && (f.V == sv || sameValue(f.V, sv)) }) {
+			continue
+		}
+		// a freshly built error (constructor results of the error chain) is not nil
+		if c, _ := resultOfCall(sv); c != nil {
+			if n := callName(c.Common()); strings.Contains(n, "errorchain.") || strings.HasPrefix(n, "errors.New") || strings.HasPrefix(n, "fmt.Errorf") {
+				continue
+			}
+		}
+		out = append(out, s)
+	}
+	return out
+}
+
+// successOnlyVia: every way for the error value v to be nil at block at passes an edge carrying p
+// (judged per source: a nil that enters a shared return through a Phi is judged at its edge).
+func successOnlyVia(w *World, fn *ssa.Function, v ssa.Value, at *ssa.BasicBlock, p func(Fact) bool) bool {
+	for _, s := range nilSources(w, fn, v, at) {
+		if s.To == nil {
+			// not through a Phi: the value is what it is in the using block
+			if !onlyVia(fn, at, p) {
+				return false
+			}
+			continue
+		}
+		if !srcOnlyVia(fn, s, p) {
+			return false
+		}
+	}
+	return true
 }
